@@ -1,5 +1,5 @@
 """C04 - A live pod's IP is never released, re-keyed or handed on."""
-import plugincheck
+import plugincheck, ipamcheck
 
 THEOREMS = ["live_bound_owned", "winv_preserved", "live_ip_survives_step", "late_event_ignored"]
 REFUTED = ["live_bound_owned_refuted_late_event_old", "live_bound_owned_refuted_stale_lister_old",
@@ -40,6 +40,13 @@ MANIFEST = {
 def run(ctx):
     ctx.cov["rule"] = plugincheck.RULE_COMMON + "; monitor: the predicate `owned` (every annotated IP of a live bound pod allocated under its key for its UID; no IP of the key stored for another UID) after every step of the well-formed prefix"
     plugincheck.run(ctx, "C04", THEOREMS, REFUTED, plugincheck.mon_c04)
+    reload_window(ctx)
+
+
+def reload_window(ctx):
+    """the plugin model treats ConfigurePool as one atomic step (the lock is held across the list since fix cdfc2c2): requests
+    of every kind arriving while the real ConfigurePool lists the store must be serialised after it, memory = store afterwards"""
+    ipamcheck.run(ctx, "C05", "C05", [], [], only="request-during-reload-list")
 
 
 def replay(ctx, path):
